@@ -277,7 +277,7 @@ func worker(args []string) {
 				t3.Confirm = false
 				v3 := runGuarded(eng, t3, *tier)
 				if v3 != nil && v3.Signature == v.Signature {
-					rec.Choices = t3.Trace
+					rec.Choices = trimZeros(t3.Trace)
 					rec.Events = t3.Events
 					rec.Detail = v3.Detail
 					rec.Minimised = true
@@ -317,6 +317,15 @@ func worker(args []string) {
 	done.Stopped = stopped
 	emit(msg{T: "done", Done: done})
 	sim.RaceLogCleanup()
+}
+
+// trimZeros drops trailing zeros (a replay feeds zeros once the recorded choices are exhausted).
+func trimZeros(c []int) []int {
+	n := len(c)
+	for n > 0 && c[n-1] == 0 {
+		n--
+	}
+	return c[:n]
 }
 
 func clipEvents(ev []string, n int) []string {
